@@ -72,6 +72,26 @@ pub fn run_to_end(w: &mut World) -> Result<End, String> {
     }
     Ok(End::Stuck)
 }
+/// The same, one `step_in` at a time (every public way of executing instructions goes through the
+/// same trap dispatch). MCR is set by the host first, as a run-style call would.
+pub fn step_to_end(w: &mut World, max_ticks: u32) -> Result<End, String> {
+    w.sim.mcr().store(true, std::sync::atomic::Ordering::Relaxed);
+    for _ in 0..400_000u32 {
+        match guarded(|| w.sim.step_in())? {
+            Err(e) => return Ok(End::Err(err_kind(&e))),
+            Ok(()) => {
+                if !w.sim.mcr().load(std::sync::atomic::Ordering::Relaxed) {
+                    return Ok(if ticks_of(w) >= max_ticks { End::Stuck } else { End::Halted });
+                }
+                // virtual HALT: reported as Ok by step_in, the machine stands on the TRAP x25
+                if !w.sim.flags.use_real_traps && w.sim.mem[w.sim.pc].get() == 0xF025 && (0x3000..0xFE00).contains(&w.sim.pc) {
+                    return Ok(End::Halted);
+                }
+            }
+        }
+    }
+    Ok(End::Stuck)
+}
 fn ticks_of(w: &World) -> u32 {
     w.log.0.lock().unwrap_or_else(|e| e.into_inner()).recs.iter().filter(|r| matches!(r, Rec::Tick { .. })).count() as u32
 }
@@ -801,10 +821,14 @@ impl C12 {
             Ok(e) => e,
             Err(p) => return fail("panic-in-run", p),
         };
-        let er = match run_to_end(&mut r) {
+        let stepped = scn.profile == "C12-step";
+        let er = match if stepped { step_to_end(&mut r, scn.max_ticks) } else { run_to_end(&mut r) } {
             Ok(e) => e,
             Err(p) => return fail("panic-in-run", p),
         };
+        if stepped {
+            out.bump("probe.real-twin-stepped");
+        }
         out.sim_time = ticks_of(&v) as u64 + ticks_of(&r) as u64;
         let (sv, sr) = (v.host.shown(), r.host.shown());
         if v.sim.psr().privileged() {
@@ -937,6 +961,10 @@ impl Check for C12 {
         s.flags.debug_frames = r.chance(1, 3);
         s.ops.clear();
         s.max_ticks = 8000;
+        // a quarter of the runs drive the real-trap machine with step_in instead of run()
+        if r.chance(1, 4) {
+            s.profile = "C12-step".into();
+        }
         // no lock holds here: after the virtual run has stopped the real run makes more device calls, so
         // a hold indexed by call number would hit only the real run (and drop a byte: that is C33's
         // known finding, not a difference between trap modes)
@@ -1442,6 +1470,10 @@ impl Check for C09S {
         let mut s = gen_adversarial(r);
         s.flags.ignore_privilege = false;
         s.profile = "C09-strict".into();
+        // half of the strict runs leave the stack pointer (and so RTI's operand) uninitialised
+        if r.bool() {
+            s.regs.retain(|(k, _)| *k != 6);
+        }
         s
     }
     fn execute(&self, s: &MScn) -> Outcome {
